@@ -315,8 +315,15 @@ func VP_C14_burst() {
 		r, err = CreateWriter(mem)
 		vp.Assert(err == nil, "CreateWriter")
 	} else {
-		a := vpChunk{x: vpCoords[0][0], z: vpCoords[0][1], sec: int32(2 + vp.Choice(2)), cnt: 1, length: 4092, first: vp.Byte(), end: vp.Byte()}
-		mem = &vpMemFile{b: vpBuild([]vpChunk{a}, 5)}
+		// the chunk fills its sector or is short; the file is padded or ends with
+		// the chunk's last byte, as an earlier WriteSector left it (a later
+		// in-place rewrite then moves the end of the file)
+		a := vpChunk{x: vpCoords[0][0], z: vpCoords[0][1], sec: int32(2 + vp.Choice(2)), cnt: 1, length: []int{4092, 100}[vp.Choice(2)], first: vp.Byte(), end: vp.Byte()}
+		if vp.Choice(2) == 0 {
+			mem = &vpMemFile{b: vpBuild([]vpChunk{a}, 5)}
+		} else {
+			mem = &vpMemFile{b: vpBuildUnpadded([]vpChunk{a}, 5)}
+		}
 		r, err = Load(mem)
 		vp.Assert(err == nil, "Load of a valid image succeeds")
 		model[[2]int{a.x, a.z}] = a
